@@ -75,7 +75,13 @@ func (k *K) Failf(sig, f string, a ...interface{}) {
 // Wait blocks until every SUT goroutine is durably blocked, then runs the invariant.
 func (k *K) Wait() {
 	kernelBlock(synctest.Wait)
-	if k.Invariant != nil && !k.inInv {
+	// stalled goroutines (soft parks) sit out a drawn number of kernel quanta, then go on
+	for k.W.softTick() {
+		kernelBlock(synctest.Wait)
+	}
+	// (not while a goroutine is stalled between two of its steps: an operation that has not
+	// returned may have reached the log and not yet the view)
+	if k.Invariant != nil && !k.inInv && k.softPending() == 0 {
 		k.inInv = true
 		k.Invariant()
 		k.inInv = false
@@ -111,6 +117,9 @@ func (k *K) Tick(d time.Duration) {
 }
 
 func (k *K) smallQuantum() time.Duration {
+	if softEvery > 0 {
+		return time.Duration(1000+k.C.Intn(100000)) * time.Microsecond
+	}
 	// irregular quanta (µs granularity) so unrelated timers do not share an instant
 	return time.Duration(1000+k.C.Intn(1500000)) * time.Microsecond
 }
@@ -164,7 +173,7 @@ func (k *K) Step() string {
 		cond(len(msgsAll) > 0, k.F.Dup),
 		cond(len(links) > 0, k.F.Cut),
 		cond(len(cuts) > 0, k.F.Heal),
-		k.F.Jump,
+		cond(softEvery == 0, k.F.Jump), // no clock jumps while goroutines may be stalled: deadlines are not the subject
 		cond(nparks > 0, k.F.Release),
 		cond(len(streams) > 0, k.F.Stream),
 		cond(len(wantsLive) > 0, k.F.FailFetch),
@@ -385,13 +394,17 @@ func (k *K) Settle(maxVirtual time.Duration, maxSteps int, idle func() bool) boo
 		k.F.Release = 4
 	}
 	defer func() { k.F = saved }()
+	// stalls are faults too: none is started while the world settles, those under way end
+	softSuspended = true
+	defer func() { softSuspended = false }()
+	k.releaseSoft()
 	start := time.Now()
 	quiet := 0
 	for s := 0; s < maxSteps && time.Since(start) < maxVirtual; s++ {
 		k.Wait()
 		en, _ := k.PendingCount()
 		k.W.mu.Lock()
-		np := len(k.W.parks)
+		np := len(k.W.parks) + len(k.W.soft)
 		k.W.mu.Unlock()
 		if en == 0 && np == 0 && len(k.activeStreams()) == 0 {
 			if k.opsInFlight() == 0 && (idle == nil || idle()) {
@@ -498,7 +511,10 @@ func (k *K) IsDone(o *Op) bool {
 func (k *K) Do(node int, name string, maxSteps int, f func() (interface{}, error)) *Op {
 	op := k.Go(node, name, f)
 	k.Wait()
-	for i := 0; i < maxSteps && !k.IsDone(op); i++ {
+	for i, total := 0, 0; i < maxSteps && total < maxSteps+4000 && !k.IsDone(op); total++ {
+		if k.softPending() == 0 {
+			i++ // quanta spent while a goroutine is stalled by the kernel are not the operation's
+		}
 		k.Step()
 		k.Wait()
 	}
@@ -508,10 +524,91 @@ func (k *K) Do(node int, name string, maxSteps int, f func() (interface{}, error
 // ---------------- hook parks ----------------
 
 type Park struct {
-	ID    int
-	Point string
-	Owner interface{}
-	ch    chan struct{}
+	ID     int
+	Point  string
+	Owner  interface{}
+	ch     chan struct{}
+	quanta int  // soft parks: kernel quanta left to sit out
+	fresh  bool // soft parks: created during the current Wait, not counted down yet
+}
+
+// softPark stalls the calling SUT goroutine (which holds none of the repository's locks) for
+// `quanta` kernel quanta: it blocks durably; the kernel goes on delivering, serving and
+// releasing meanwhile. A long virtual timeout is the safety net should the kernel itself ever
+// wait for something the stalled goroutine holds.
+func (w *World) softPark(quanta int) {
+	w.mu.Lock()
+	w.parkSeq++
+	p := &Park{ID: w.parkSeq, Point: "prelock", ch: make(chan struct{}), quanta: quanta, fresh: true}
+	w.soft = append(w.soft, p)
+	w.stat("soft-park")
+	w.tr("stall g%d for %d quanta", p.ID, quanta)
+	w.mu.Unlock()
+	t := time.NewTimer(10 * time.Minute)
+	select {
+	case <-p.ch:
+		t.Stop()
+	case <-t.C:
+		w.mu.Lock()
+		for i, q := range w.soft {
+			if q == p {
+				w.soft = append(w.soft[:i:i], w.soft[i+1:]...)
+			}
+		}
+		w.stat("soft-park-timeout")
+		w.mu.Unlock()
+	}
+}
+
+// softTick counts every stalled goroutine down by one quantum and resumes those that have sat
+// theirs out; reports whether any was resumed (the caller then waits for quiescence again).
+func (w *World) softTick() bool {
+	w.mu.Lock()
+	defer w.mu.Unlock()
+	if len(w.soft) == 0 {
+		return false
+	}
+	resumed := false
+	var keep []*Park
+	for _, p := range w.soft {
+		if p.fresh {
+			p.fresh = false
+			keep = append(keep, p)
+			continue
+		}
+		p.quanta--
+		if p.quanta <= 0 {
+			w.tr("resume g%d", p.ID)
+			close(p.ch)
+			resumed = true
+			continue
+		}
+		keep = append(keep, p)
+	}
+	w.soft = keep
+	return resumed
+}
+
+// releaseSoft resumes every stalled goroutine now.
+func (k *K) releaseSoft() {
+	w := k.W
+	w.mu.Lock()
+	ps := w.soft
+	w.soft = nil
+	for _, p := range ps {
+		w.tr("resume g%d", p.ID)
+		close(p.ch)
+	}
+	w.mu.Unlock()
+	if len(ps) > 0 {
+		kernelBlock(synctest.Wait)
+	}
+}
+
+func (k *K) softPending() int {
+	k.W.mu.Lock()
+	defer k.W.mu.Unlock()
+	return len(k.W.soft)
 }
 
 // ParkHere is installed as the yield function of the repository's verif hooks: the calling
